@@ -488,8 +488,9 @@ func (r *lsmRun) snapshotReads() map[string]string {
 func (r *lsmRun) commitOne() { r.commitKind(-1) }
 
 // commitKind: kind 0 = delete, 1 = already expired put, 2.. = put, -1 = random.
-func (r *lsmRun) commitKind(forced int) {
-	user := corr.Pick(r.c.Rng, lsmUserKeys)
+func (r *lsmRun) commitKind(forced int) { r.commitKey(forced, corr.Pick(r.c.Rng, lsmUserKeys)) }
+
+func (r *lsmRun) commitKey(forced int, user []byte) {
 	r.seq++
 	val := []byte(fmt.Sprintf("t%d", r.seq))
 	kind := r.c.Rng.Intn(5)
@@ -663,6 +664,10 @@ func (r *lsmRun) program(p lsmProfile) {
 
 // scripted regression programs, run before the random ones
 var lsmScripts = map[string][]string{
+	// the newest version of k is an expired entry (or a tombstone) parked in the ingest buffer above the older live value:
+	// rewriting its table alone (ingest keep-merge) must keep it shadowing
+	"ttl_shadow":       {"tput k", "tput a", "rotate", "flush", "move", "drain", "read", "texp k", "tdel a", "rotate", "flush", "move", "read", "keep", "read", "reopen", "read", "drain", "read"},
+	"ttl_shadow_plain": {"tput k", "tput a", "rotate", "flush", "move", "drain", "read", "texp k", "tdel a", "rotate", "flush", "move", "read", "keep", "read", "reopen", "read", "drain", "read"},
 	// the bottom level grows past the base-level size (moves go to L5), then shrinks again once deletes reach it:
 	// the planner's own base level drops back to L6 while L5 still holds the older copy of k
 	"base_level_drop_plain": {"bulk 40", "rotate", "flush", "rmove", "drainl 6", "read", "bulkdel 40", "rotate", "flush", "rmove", "drainl 5", "put k 1", "rotate", "flush", "rmove", "read", "regular 5", "read", "put k 2", "rotate", "flush", "rmove", "read"},
@@ -756,6 +761,15 @@ func (r *lsmRun) script(steps []string, plain bool) {
 			r.commitOne()
 		case "commit_exp":
 			r.commitKind(1)
+		case "tput":
+			r.commitKey(2, []byte(f[1]))
+		case "texp":
+			r.commitKey(1, []byte(f[1]))
+		case "tdel":
+			r.commitKey(0, []byte(f[1]))
+		case "keep":
+			r.compactOnce(6, int(compact.IngestKeep), 0)
+			maint++
 		case "read":
 			r.readAll(plain)
 		}
@@ -818,15 +832,15 @@ func runLsm(c *corr.Ctx) error {
 		runTargets(c, c.Scale(300, 20000))
 	}
 	if plain {
-		for _, name := range []string{"l0_tie", "ingest_tie", "ingest_tie2", "drain_overlap_plain", "ingest_over_main_plain", "l0_prefix_plain", "base_level_drop_plain"} {
+		for _, name := range []string{"l0_tie", "ingest_tie", "ingest_tie2", "drain_overlap_plain", "ingest_over_main_plain", "l0_prefix_plain", "base_level_drop_plain", "ttl_shadow_plain"} {
 			runScriptLsm(c, name, true)
 		}
 	} else if c.Prop == "C12" {
-		for _, name := range []string{"ingest_reopen", "ttl_reopen", "ttl_compact_reopen", "mono"} {
+		for _, name := range []string{"ingest_reopen", "ttl_reopen", "ttl_compact_reopen", "mono", "ttl_shadow"} {
 			runScriptLsm(c, name, false)
 		}
 	} else {
-		for _, name := range []string{"order", "mono", "l0_tie", "drain_overlap", "ingest_over_main", "hot_key"} {
+		for _, name := range []string{"order", "mono", "l0_tie", "drain_overlap", "ingest_over_main", "hot_key", "ttl_shadow"} {
 			runScriptLsm(c, name, false)
 		}
 	}
